@@ -386,7 +386,7 @@ KEYSTORE_REF = {
 }
 
 
-def rule_keystore(ctx) -> None:
+def rule_keystore(ctx, P: str = "C09") -> None:
     chk = ctx.chk
     ks = ctx.cls(KEYSTORE, "KeyStore")
     for name, (key, block, klen) in KEYSTORE_REF.items():
@@ -398,7 +398,7 @@ def rule_keystore(ctx) -> None:
         if isinstance(e, ast.Call) and A.call_name(e) == "aes_ecb_encrypt" and len(e.args) == 2:
             got = (norm(e.args[0]), ctx.prog.fold(e.args[1], fn.module, ks))
             ok = got == (key, block)
-        chk.decide(ok, "C09.keystore-constants", fn.qual, f"aes_ecb_encrypt({key}, {block.hex()})", f"{(got[0], got[1].hex() if isinstance(got[1], bytes) else got[1]) if got else norm(e) if e is not None else ''}",
+        chk.decide(ok, f"{P}.keystore-constants", fn.qual, f"aes_ecb_encrypt({key}, {block.hex()})", f"{(got[0], got[1].hex() if isinstance(got[1], bytes) else got[1]) if got else norm(e) if e is not None else ''}",
                    f"({key}, {block.hex()})", A.loc(KEYSTORE, fn.node))
         cex = None
         for L in (0, 16, 31, 32, 33, 64):
@@ -411,10 +411,10 @@ def rule_keystore(ctx) -> None:
             want = "return" if L == klen else "raise"
             if out.kind != want and cex is None:
                 cex = (L, out.kind)
-        chk.decide(cex is None, "C09.keystore-guard", fn.qual, f"accepts exactly {klen}-byte keys", f"key length {cex[0]} -> {cex[1]}" if cex else "", "", A.loc(KEYSTORE, fn.node))
+        chk.decide(cex is None, f"{P}.keystore-guard", fn.qual, f"accepts exactly {klen}-byte keys", f"key length {cex[0]} -> {cex[1]}" if cex else "", "", A.loc(KEYSTORE, fn.node))
     fn = ctx.own(KEYSTORE, "KeyStore", "derive_otfad_kek_key")
     r = A.returns_in(fn.node)
-    chk.decide(len(r) == 1 and norm(r[0].value) == "aes_ecb_encrypt(master_key, otfad_input)", "C09.keystore-constants", fn.qual, "aes_ecb_encrypt(master_key, otfad_input)", norm(r[0]) if r else "", "", A.loc(KEYSTORE, fn.node))
+    chk.decide(len(r) == 1 and norm(r[0].value) == "aes_ecb_encrypt(master_key, otfad_input)", f"{P}.keystore-constants", fn.qual, "aes_ecb_encrypt(master_key, otfad_input)", norm(r[0]) if r else "", "", A.loc(KEYSTORE, fn.node))
 
 
 def rule_kdf(ctx, P: str = "C09") -> None:
